@@ -165,6 +165,8 @@ def _check_drop(tree, ob, clsname, attr, func, stmt, n):
         rd = fv.reaching_defs(got['v'].id, stmt)
         if len(rd) == 1 and rd[0][1] is not None:
             (vstmt, vdef) = rd[0]
+            if isinstance(vdef, ast.expr):
+                vdef = fv.value_at(vdef, vstmt)     # see through plain temporaries
             if pm(buf + '[:$k]', vdef) is not None:
                 vname = got['v'].id
                 partial = [c for c in calls_in(func) if isinstance(c.func, ast.Attribute) and c.func.attr in ('send', 'write', 'sendall', 'sendto')
@@ -180,9 +182,12 @@ def _check_drop(tree, ob, clsname, attr, func, stmt, n):
                     ob.violate(SESS, qual, src(stmt), 'buffer is rewritten between taking the prefix and dropping its length', stmt)
                 return
             got2 = pm('bytes($p)', vdef)
-            if got2 is not None and isinstance(got2['p'], ast.Name):
-                prd = fv.reaching_defs(got2['p'].id, vstmt)
-                if len(prd) == 1 and prd[0][1] is not None and pm('$cls(' + buf + ')', prd[0][1]) is not None:
+            if got2 is not None:
+                decoded = pm('$cls(' + buf + ')', got2['p']) is not None
+                if not decoded and isinstance(got2['p'], ast.Name):
+                    prd = fv.reaching_defs(got2['p'].id, vstmt)
+                    decoded = len(prd) == 1 and prd[0][1] is not None and pm('$cls(' + buf + ')', prd[0][1]) is not None
+                if decoded:
                     # re-encoded length of a packet decoded from this very buffer; no drop on the partial path
                     for handler in [n_ for n_ in walk_local(func) if isinstance(n_, ast.ExceptHandler)]:
                         names = [dotted(handler.type) or ''] if handler.type is not None else ['']
